@@ -432,6 +432,7 @@ Section WriterProofs.
     (forall b, In b l2 -> exists a, In a l1 /\ eqk b a) ->
     Forall2 eqk l1 l2.
   Proof.
+    clear maxrows_pos sort_ok merge_ok.
     induction l1 as [|x t1 IH]; intros l2 S1 S2 C1 C2.
     - destruct l2 as [|y t2]; [constructor|]. destruct (C2 y (or_introl eq_refl)) as [a [[] _]].
     - destruct l2 as [|y t2]; [destruct (C1 x (or_introl eq_refl)) as [b [[] _]]|].
@@ -465,6 +466,7 @@ Section WriterProofs.
     (forall b, In b w2 -> exists a, In a w1 /\ eqk b a) ->
     Forall2 eqk out1 out2.
   Proof.
+    clear maxrows_pos sort_ok merge_ok.
     intros (S1 & C1 & I1) (S2 & C2 & I2) H12 H21. apply strict_cover_unique; auto.
     - intros a Ha. destruct (H12 a (I1 a Ha)) as [b [Hb E]]. destruct (C2 b Hb) as [d [Hd E']].
       exists d. split; auto. eapply eqk_trans; eauto.
@@ -481,6 +483,7 @@ Section WriterProofs.
 
   Lemma insert_sorted_sorted x l : le_sorted l -> le_sorted (insert_sorted A cmp x l).
   Proof.
+    clear maxrows_pos sort_ok merge_ok.
     induction 1 as [|y l Hs IH Hf]; simpl; [repeat constructor|].
     destruct (Z.leb_spec (cmp x y) 0) as [Hle|Hgt].
     - constructor; [constructor; auto|]. constructor; auto.
